@@ -237,3 +237,20 @@ def c11_kinds(case, rr, kinds=None, same_position=None, only_rules=None, pragma_
         if not (before or after):
             return False
     return True
+
+
+@matcher
+def c06_md009_tab(case, rr):
+    """MD009 verdict differs only on lines whose trailing spaces are directly preceded by
+    whitespace that contains a TAB."""
+    import re
+
+    obs = rr.get("observed") or {}
+    if case["params"].get("rule") != "md009":
+        return False
+    lines = (obs.get("doc") or "").split("\n")
+    got, want = set(obs.get("reported") or []), set(obs.get("documented") or [])
+    diff = got ^ want
+    if not diff:
+        return False
+    return all(re.search(r"\t[ \t]* +$", lines[ln - 1]) for ln in diff)
